@@ -2,7 +2,7 @@
 import json, os, re
 
 VERIF = os.path.dirname(os.path.dirname(os.path.abspath(__file__)))
-CLOSURE = ["Model/Net.v", "Proofs/NetP.v", "Model/Cfg.v", "Proofs/CfgSortP.v", "Proofs/CfgP.v", "Proofs/CfgSummP.v", "Proofs/CfgFuelP.v", "Proofs/CfgRouteP.v", "Proofs/CfgL2P.v",
+CLOSURE = ["Model/Net.v", "Proofs/NetP.v", "Model/Cfg.v", "Model/CfgFull.v", "Proofs/CfgFullP.v", "Proofs/CfgIsortP.v", "Proofs/CfgAggP.v", "Proofs/CfgSortP.v", "Proofs/CfgP.v", "Proofs/CfgSummP.v", "Proofs/CfgFuelP.v", "Proofs/CfgRouteP.v", "Proofs/CfgL2P.v",
            "Proofs/CfgPrefix.v"]
 GEN_SRC = os.path.join(VERIF, "harness", "internal", "config", "zz_verif_cfggen_test.go.in")
 
@@ -37,7 +37,11 @@ def run_harness(ctx, state, pkg, files, test, n, seed, tag, env=None):
 
 
 def coq_compare(ctx, cases, what):
-    mism = ctx.coq_cases("Run_Cfg", "ccase", [c["coq"] for c in cases], shard=max(40, (len(cases) + 15) // 16) if len(cases) < 2400 else 150)
+    # heavy cases (wide IPv6 ranges) come in runs: deal the cases round-robin over 16 shards
+    nsh = 16
+    order = sorted(range(len(cases)), key=lambda i: (i % nsh, i))
+    terms = [cases[i]["coq"] for i in order]
+    mism = ctx.coq_cases("Run_Cfg", "ccase", terms, shard=max(20, (len(cases) + nsh - 1) // nsh) if len(cases) < 2400 else 150)
     byid = {c["id"]: c for c in cases}
     for m in mism[:5]:
         c = byid.get(m, {})
